@@ -338,7 +338,7 @@ def main():
             judge(c, parse_events(events.get('r', [])), part)
             print('verdict:', [k for k, _ in part.violations] or 'agrees', [c.key for c in crashes])
         return 0
-    n = 500 if a.tier == 'quick' else 6000
+    n = 1500 if a.tier == 'quick' else 6000
     for r in parallel(worker, [(bindir, i, n) for i in range(32)]):
         rep.merge(r)
     return rep.finish(
